@@ -431,7 +431,9 @@ def _value_line_tokenizer(func):
         first_line = True
         for line in v.splitlines(keepends=True):
             assert not _RE_WHITESPACE_LINE.match(v)
-            if line.startswith("#"):
+            if line.startswith("#") and not first_line:
+                # The first line directly follows "Field:" and is therefore
+                # never a comment ("Field:#value" is a value).
                 yield Deb822CommentToken(line)
                 continue
             has_newline = False
